@@ -7,7 +7,7 @@ import os
 
 from hypothesis import strategies as st
 
-from vf.core import VERIF_DIR, HarnessError, HypPart, Oracle, SkipCase
+from vf.core import VERIF_DIR, HarnessError, HypPart, Oracle, SkipCase, case_digest, reorder
 from vf.ref import painter as P
 
 ID = "C16"
@@ -550,7 +550,7 @@ def run_merge(case, o: Oracle) -> None:
             root.add(node)
     img = None
     with o.spsdk("merge", "load_from_config"):
-        img = BinaryImage.load_from_config(cfg, search_paths=[wdir])
+        img = BinaryImage.load_from_config(reorder(cfg, int(case_digest(case)[:8], 16)), search_paths=[wdir])
         if case["adjust"]:
             img.update_offsets()
     if img is None:
